@@ -598,7 +598,7 @@ const fwdTyped = "/a/32=b"
 
 // names asked of the cache directly after every step: names of the universe, names below cached ones that no Interest ever created a
 // tree node for, siblings
-var fwdProbeNames = []string{"/", "/a", "/a/b", "/a/b/c", "/a/b/c/e", "/a/b/x", "/a/b/c/e/z", "/a/q", "/d", "/d/f/g", "/localhost", "/localhost/x/y/z", fwdTyped}
+var fwdProbeNames = []string{"/", "/a", "/a/b", "/a/b/x", "/a/b/c/e/z", "/a/q", "/d/f/g", "/localhost/x/y/z"}
 
 var fwdINames = []string{"/a", "/a/b", "/a/b/c", "/d", "/localhost/x", "/", fwdCollide, fwdTyped}
 var fwdDNames = []string{"/", "/a", "/a/b", "/a/b/c", "/a/b/c/e", "/d", "/d/f", "/localhost/x", "/localhost/x/y", fwdCollide, "/a/b", fwdTyped}
